@@ -53,8 +53,34 @@ def generate(streams, tier):
             # fault plan: which of the file-system calls of the save / load fail (indices resolved at run time modulo the call count)
             op["faults"] = [{"kind": rw.choice(["open", "write", "close", "read", "open_read"]), "pick": rw.randrange(1000),
                              "err": rw.choice(["ENOSPC", "EIO"])} for _ in range(rw.randint(1, 3))]
+        if kind == "bn" and ops and rw.random() < 0.5:
+            # the same network written a second time in this process with its parents declared in another order (same distribution):
+            # whatever a writer or reader remembers from the first file must not leak into the second
+            op["parent_variant"] = rw.randrange(2**31)
+            if rw.random() < 0.7:
+                op["fmt"] = ops[-1]["fmt"]
+                if op["route"] == "save_load" and op["fmt"] == "net":
+                    op["route"] = "file"
         ops.append(op)
     return {"kind": kind, "world": world, "config": config, "ops": ops}
+
+
+def parent_order_variant(world, seed):
+    """The same network with every multi-parent CPD declared in another parent order (table columns permuted alike)."""
+    r = random.Random(seed)
+    w = copy.deepcopy(world)
+    for v in range(w["n"]):
+        ps = list(w["parents"][v])
+        if len(ps) < 2:
+            continue
+        new = list(ps)
+        while new == ps:
+            r.shuffle(new)
+        t = np.asarray(w["tables"][v], dtype=float).reshape([w["card"][v]] + [w["card"][p] for p in ps])
+        t = np.transpose(t, [0] + [1 + ps.index(p) for p in new])
+        w["parents"][v] = new
+        w["tables"][v] = t.reshape(w["card"][v], -1).tolist()
+    return w
 
 
 def _maybe_wide_variable(r, world, rate):
@@ -329,13 +355,20 @@ def execute(case, ctx):
         fmt, route = op["fmt"], op["route"]
         if kind == "mn" and fmt != "uai":
             continue
-        model = build()
+        cmp_ = compare
+        if kind == "bn" and op.get("parent_variant") is not None:
+            wv = parent_order_variant(world, op["parent_variant"])
+            model = build_bn(wv, case["config"], names)
+            cmp_ = lambda m2, fmt_, what, wv=wv: compare_bn(ctx, wv, m2, fmt_, what)
+            ctx.fault("object_history")
+        else:
+            model = build()
         before = snap(model)
-        ctx.event("roundtrip", fmt, route, op.get("n_jobs"), bool(op.get("faults")))
+        ctx.event("roundtrip", fmt, route, op.get("n_jobs"), bool(op.get("faults")), op.get("parent_variant") is not None)
         seams.install_parallel(random.Random(op["jobseed"]), ctx)
         fs = seams.install_simfs(ctx)
         try:
-            _roundtrip(ctx, op, fmt, route, model, compare, fs, kind)
+            _roundtrip(ctx, op, fmt, route, model, cmp_, fs, kind)
         finally:
             seams.reset_environment()
         if snap(model) != before:
